@@ -249,7 +249,8 @@ pub fn configs(prop: &str, thorough: bool) -> Vec<(Cfg, Option<usize>)> {
                 c.th = Th::Count(2);
                 c.deposit = if cw20 { Dep::Cw20 { amount: 1, refund: true } } else { Dep::Native { amount: 1, refund: true } };
                 c.max_props = 2;
-                c.kinds = vec![PK::Tag1, PK::Tag2, PK::ExecPrev];
+                // a text-only proposal (no messages) among them: executing it relays nothing but still executes it
+                c.kinds = vec![PK::Empty, PK::Tag1, PK::Tag2, PK::ExecPrev];
                 c.votes = vec![VoteA::Yes, VoteA::No];
                 c.proposers = vec![0];
                 c.voters_acting = vec![1];
@@ -428,16 +429,18 @@ pub fn configs(prop: &str, thorough: bool) -> Vec<(Cfg, Option<usize>)> {
             }
             // a quorum proposal that stays Open for the whole period and is voted down only by the
             // at-expiry rule (No outweighs Yes among the votes cast): Close must still return the deposit
-            for per in [Per::H(2), Per::T(2 * DT)] {
+            // ... and one that stays Open for the whole period and PASSES only by the at-expiry rule: Execute must
+            // return the deposit whether or not refunds for failed proposals are enabled
+            for (per, refund) in [(Per::H(2), true), (Per::T(2 * DT), true), (Per::H(2), false), (Per::T(2 * DT), false)] {
                 if !thorough && per != Per::H(2) {
                     continue;
                 }
-                let mut c = Cfg::base(&format!("C15/A1,B3,C4/q51-50/native/refund=true/{}", if per == Per::H(2) { "height" } else { "time" }), true);
+                let mut c = Cfg::base(&format!("C15/A1,B3,C4/q51-50/native/refund={refund}/{}", if per == Per::H(2) { "height" } else { "time" }), true);
                 c.props = p.clone();
                 c.voters = vec![(0, 1), (1, 3), (2, 4)];
                 c.th = Th::Quorum { t: pct(510_000_000), q: pct(500_000_000) };
                 c.period = per;
-                c.deposit = Dep::Native { amount: 2, refund: true };
+                c.deposit = Dep::Native { amount: 2, refund };
                 c.max_props = 1;
                 c.latest = vec![LatestA::Unset, LatestA::AlreadyExpired];
                 c.proposers = vec![0];
